@@ -107,6 +107,9 @@ PROP_SCENARIOS = {
     "C04": ["growth2", "refresh-swap", "fallback"],
     "C05": ["bind-swap", "streams-swap", "resolve-refresh", "rr-state"],
     "C06": ["bind-swap", "refresh-swap", "refresh2", "growth2", "fallback", "resolve-refresh", "rr-state", "unbind-swap"],
+    # C07 quantifies over timed histories: only the race whose every sequential reading is covered by the statement
+    # ("no refresh already in progress", "exactly one replacement") is judged against it
+    "C07": ["refresh2"],
     "C08": ["fallback", "fallback-unbind"],
     "C09": ["rr", "rr-state"],
     "C20": ["resolve-refresh", "resolve-growth"],
